@@ -52,7 +52,15 @@ MCCaseSeq ==
        Rep("l1", 3, 2) \o Rep("l1", 12, 7) \o Rep("l1", 3, 7),
        Rep("l1", 4, 3) \o Rep("l1", 1, 3) \o Rep("l1", 4, 9),
        Rep("l1", 2, 2) \o Rep("l1", 1, 3) \o Rep("l1", 2, 4),
-       Rep("l1", 11, 2) \o Rep("l1", 1, 3) \o Rep("l1", 11, 1) \o Rep("l1", 1, 3)
+       Rep("l1", 11, 2) \o Rep("l1", 1, 3) \o Rep("l1", 11, 1) \o Rep("l1", 1, 3),
+    \* long stays after a change, so that bounded starvation is exercised after the change
+       Rep("l1", 3, 2) \o Rep("l1", 9, 52),
+       Rep("l1", 9, 2) \o Rep("l1", 3, 52),
+       Rep("l1", 2, 2) \o Rep("l1", 1, 15),
+       Rep("l1", 1, 2) \o Rep("l1", 2, 15),
+       Rep("l1", 4, 3) \o Rep("l1", 1, 35),
+       Rep("l1", 13, 2) \o Rep("l1", 3, 112),
+       Rep("l1", 5, 3) \o Rep("l1", 7, 28) \o Rep("l1", 5, 52)
     >>
 
 StarveCases == {Rep("l1", 8, 40)}
